@@ -41,6 +41,10 @@ const (
 var (
 	errUnknownTimerType = errors.New("unknown metric timer type")
 	ms                  = float64(time.Millisecond) / float64(time.Second)
+
+	// errTimerTypeClash is returned when a summary is requested for a name
+	// and tag keys already registered as a histogram, or vice versa.
+	errTimerTypeClash = errors.New("metric previously registered as the other timer/histogram type")
 )
 
 // DefaultHistogramBuckets is the default histogram buckets used when
@@ -470,6 +474,9 @@ func (r *reporter) summaryVec(
 	defer r.Unlock()
 
 	if s, ok := r.timers[id]; ok {
+		if s.summary == nil {
+			return nil, errTimerTypeClash
+		}
 		return s.summary, nil
 	}
 
@@ -502,6 +509,9 @@ func (r *reporter) histogramVec(
 	defer r.Unlock()
 
 	if h, ok := r.timers[id]; ok {
+		if h.histogram == nil {
+			return nil, errTimerTypeClash
+		}
 		return h.histogram, nil
 	}
 
